@@ -86,7 +86,10 @@ def check(P: Project, R: Report) -> None:
         if nm == "self.process.terminate":
             return "terminate"
         if nm == "self.process.kill":
-            return "kill@" + ("timeout-arm" if an.handler_stack and any("TimeoutError" in n for n in an.handler_names(an.handler_stack[-1])) else "elsewhere")
+            arm = an.handler_stack and any("TimeoutError" in n for n in an.handler_names(an.handler_stack[-1]))
+            # … or the flag form: `with move_on_after(t) as scope: await wait()` … `if scope.cancelled_caught: kill()`
+            arm = arm or any(l.endswith(".cancelled_caught") and not l.startswith("not ") for l in st.lits)
+            return "kill@" + ("timeout-arm" if arm else "elsewhere")
         if nm == "self.process.wait":
             bound = None
             for w in reversed(an.with_stack):
